@@ -62,8 +62,9 @@ class CompositePatternBuilder(Generic[T]):  # TODO: IEnumerable<Pattern<T>>
 
     class __CompositePattern(_IPartialPattern[T]):
         def __init__(self, patterns: list[IPattern[T]], format_predicates: list[Callable[[T], bool]]) -> None:
-            self.__patterns: Final[list[IPattern[T]]] = patterns
-            self.__format_predicates: Final[list[Callable[[T], bool]]] = format_predicates
+            # Copies: the builder that creates this pattern keeps adding to its own lists.
+            self.__patterns: Final[list[IPattern[T]]] = list(patterns)
+            self.__format_predicates: Final[list[Callable[[T], bool]]] = list(format_predicates)
 
         def parse(self, text: str) -> ParseResult[T]:
             for pattern in self.__patterns:
